@@ -129,7 +129,7 @@ theorem block_defines (U : UnicodeOps) (cfg : Cfg) (cs : List Str) (it : RustIte
     cases hd
     refine ⟨_, rfl, splitsInto_single ?_⟩
     simp only [renderValue, List.append_assoc]
-    have := definesHead_r (kw := s%"const ") (n := Rename.toPascal c.id.renamed) []
+    have := definesHead_r (kw := s%"const ") (n := Rename.toPascal U c.id.renamed) []
       (s%" " ++ (ty ++ (s%" = " ++ (Str.natToStr c.expr ++ s%"\n")))) lineStart_nil (nameEnd_cons _ (by simp [delims]))
     simpa using this
   | «enum» e =>
@@ -172,10 +172,10 @@ theorem block_defines (U : UnicodeOps) (cfg : Cfg) (cs : List Str) (it : RustIte
       cases hst
       have hnames := anonStructs_names U cfg e _ _ _ _ ha
       have hEa : d.anonymous = anon := by rw [← hE]
-      have hEk : d.keyType = name ++ Rename.toPascal tagAcr ++ s%"s" := by rw [← hE]
+      have hEk : d.keyType = name ++ Rename.toPascal U tagAcr ++ s%"s" := by rw [← hE]
       have hEn : d.name = name := by rw [← hE]
       refine ⟨(anon.map (·.name)).map (fun i => (s%"type ", i)) ++
-          [(s%"type ", name ++ Rename.toPascal tagAcr ++ s%"s"), (s%"type ", name)],
+          [(s%"type ", name ++ Rename.toPascal U tagAcr ++ s%"s"), (s%"type ", name)],
         by simp only [goDefs, structVariantsOf_eq, hnames, Outcome.bind_ok, hn, hk, hta], ?_⟩
       have hp : Paired (fun (d : Str × Str) (c : Str) => DefinesHead d.1 d.2 c)
           ((anon.map (·.name)).map fun i => (s%"type ", i)) (anon.map renderStruct) := by
